@@ -75,3 +75,25 @@ def unit_delimited_row_writer_write_row():
                     raises={"DataFormatError": [Clause("loc._line == line0", "a-failed-write-does-not-advance", props=["C14"])]}, expect=["return", "DataFormatError"], n_loops=0, raises_only_props=["C14", "C10"]),
                 "callees": {"ref:CsvWriter.writerow": m_writerow}, "assumptions": ["A-CSV (writer): csv writer.writerow raises only UnicodeEncodeError on an encoding stream"]}
     return ProofUnit("rowio.DelimitedRowWriter.write_row", "DelimitedRowWriter.write_row: row handed to csv once; encoding failures become DataFormatError", ["C14", "C12", "C10"], make, None)
+
+
+def unit_xlsx_row_writer_write_row():
+    def setup(ex, st):
+        row, c = fresh(UFList(STR), "row"); st.pc.extend(c)
+        line0 = fresh(INT, "line0")[0]; st.pc.append(line0.z >= 0)
+        loc = Ref("Location"); st.heap[loc.oid] = {"file_path": "<xlsx>", "_line": line0, "_column": 0, "_cell": 0, "_sheet": 0, "_has_column": False, "_has_cell": True, "_has_sheet": False}
+        ws = Ref("Worksheet"); st.heap[ws.oid] = {}
+        self = Ref("XlsxRowWriter"); st.heap[self.oid] = {"_location": loc, "_worksheet": ws, "_workbook": Ref("Workbook")}
+        st.frames[-1].env.update({"self": self, "row_to_write": row}); st.ghost.update({"row": row, "line0": line0, "loc": loc, "cells_written": 0})
+    def m_write_string(ex, st, recv, args, kw):
+        i = lift(st.frames[-1].env["_i0"]).z
+        ex.obligations.append(Obligation("item-j-of-the-row-goes-to-cell-(current-line,-j)-as-a-string-cell-each-item-once-in-order", st.pc,
+                                         z3.And(lift(args[0]).z == G(st, "line0"), lift(args[1]).z == i, lift(args[2]).z == st.ghost["row"].at(i), G(st, "cells_written") == i), "post", props=["C16"]))
+        st.ghost["cells_written"] = Sym(INT, G(st, "cells_written") + 1); yield st, None
+    def make(ctx):
+        c = Contract("rowio.XlsxRowWriter.write_row", setup,
+                returns=[Clause("cells_written == len(row)", "every-item-is-written", props=["C16"]), Clause("loc._line == line0 + 1 and loc._cell == 0", "advances-to-the-next-row", props=["C16"])],
+                raises={}, loops={0: LoopSpec(invariants=["loc._cell == _i0", "cells_written == _i0", "loc._line == line0"], havoc={"item": STR, "column_index": INT, "loc._cell": INT}, ghost_havoc={"cells_written": INT})},
+                expect=["return"], n_loops=1, raises_only_props=["C16", "C10"])
+        return {"contract": c, "callees": {"ref:Worksheet.write_string": m_write_string}, "assumptions": ["xlsxwriter's Worksheet.write_string(row, col, text) stores a string cell (A-XLRD side audited by the workbook round trip)"]}
+    return ProofUnit("rowio.XlsxRowWriter.write_row", "XlsxRowWriter.write_row: item j of the i-th written row goes to cell (i, j) as a string cell", ["C16"], make, None)
